@@ -388,6 +388,9 @@ def run_native(top, registry, state, extra_check=None):
             res = fn(**args)
         else:
             fn = resolve(top.target)
+            if (getattr(top, 'extra', {}) or {}).get('decorators_ok') and hasattr(fn, '__wrapped__'):
+                # the contract ignores the decorator (decorators_ok): replay the undecorated function
+                fn = fn.__wrapped__
             kwargs = dict(params)
             if 'self' in kwargs:
                 selfv = kwargs.pop('self')
